@@ -2,12 +2,12 @@ TUS = ['src/client/QXmppCarbonManagerV2.cpp', 'src/client/QXmppCarbonManager.cpp
 MODELS = ['qt_core.c', 'qt_dom.c', 'qt_object.c', 'c11_env.c']
 BOUND = 'stanza tree: outer + 3 children + 2 grandchildren each + 2 great-grandchildren each (22 elements), every tag from {message,sent,received,forwarded,body,private}, every xmlns from {carbons:2, forward:0, jabber:client, carbons:1, inherited}, child counts 0..max; outer from absent or <= 4 arbitrary UTF-16 units; configured bare JID <= 4 arbitrary units'
 def I(name, entry, **kw):
-    d = dict(name=name, entry=entry, unwind=14, timeout_s=600, mem_gb=8, cdefs={'VP_ACTIVATE_HOOK': 'c11_on_signal', 'QS_CAP': 128, 'DOM_MAXCH': 3}, bound=BOUND); d.update(kw); return d
+    d = dict(name=name, entry=entry, unwind=14, timeout_s=600, mem_gb=8, cdefs={'VP_ACTIVATE_HOOK': 'c11_on_signal', 'QS_CAP': 20, 'DOM_MAXCH': 3, 'DOM_MAXATTR': 2}, bound=BOUND); d.update(kw); return d
 SPEC = dict(
     property='C11',
     groups=[
-        dict(name='carbon', harness='h.cpp', tus=TUS, models=MODELS,
-             instances=[I('v2_tree', 'h_v2'), I('v1_tree', 'h_v1')]),
+        dict(name='carbon', harness='h.cpp', tus=TUS, models=MODELS, loop_bounds={r'^_ZNSt6ranges14__copy_or_move': 100},
+             instances=[I('v2_tree', 'h_v2'), I('v1_tree', 'h_v1'), I('first_child', 'h_first_child', bound='parent (possibly null) with 0..3 children, tags/namespaces as above, query tag/namespace from the same tables or empty')]),
     ],
     bounds=[BOUND],
     assumptions=[],
